@@ -1942,8 +1942,29 @@ impl RealCoord {
     }
 }
 
-fn co_err(e: &str) -> &'static str {
-    if e.contains("not found") { "notfound" } else if e.contains("cannot be committed") { "refused" } else if e.contains("phase") { "wrongphase" } else { "error" }
+/// Error canonicalisation (BUILDING.md), rule 2. `commit` / `abort` / `complete_*` / `force_resolve` report
+/// all their refusals (unknown transaction, wrong phase, a non-YES vote) as the ONE variant
+/// `ChainError::TransactionFailed(String)`; a refusal changes nothing and C12 only needs ended / refused
+/// (`ended` below), so the COMPARED token is decided by the variant: `txfailed` (the model's `notfound` /
+/// `wrongphase` / `refused` are mapped to it at comparison time, `co_model_collapsed`). What the message says
+/// is read only for the coverage statistic `co.end.<site>.<reason>`.
+const CO_TXFAILED: &str = "txfailed";
+fn co_err(e: &tensor_chain::ChainError) -> (String, &'static str) {
+    match e {
+        tensor_chain::ChainError::TransactionFailed(m) => {
+            (CO_TXFAILED.into(), if m.contains("not found") { "notfound" } else if m.contains("cannot be committed") { "refused" } else if m.contains("phase") { "wrongphase" } else { "unclassified" })
+        }
+        other => (format!("err:{}", format!("{other:?}").chars().take_while(|c| c.is_alphanumeric()).collect::<String>()), "error"),
+    }
+}
+/// the model's answer line `<answer> | <image>` with a refusal of an end-of-transaction op collapsed
+fn co_model_collapsed(mo: &str) -> String {
+    let (ans, rest) = match mo.split_once(" | ") { Some((a, r)) => (a, Some(r)), None => (mo.trim_end(), None) };
+    if matches!(ans.trim_end(), "notfound" | "wrongphase" | "refused") {
+        match rest { Some(r) => format!("{CO_TXFAILED} | {r}"), None => CO_TXFAILED.to_string() }
+    } else {
+        mo.to_string()
+    }
 }
 
 /// Runs one coordinator op script on the real `DistributedTxCoordinator` (frozen clock) and on the model,
@@ -2059,7 +2080,7 @@ fn run_coord_case(m: &mut Model, rep: &mut Report, stream: &str, to: u64, mc: us
                 };
                 match res {
                     Ok(()) => { ended.push(*tx); if record { rep.hit(&format!("co.end.{site}")); } "ok".into() }
-                    Err(e) => { let k = co_err(&e.to_string()); if record { rep.hit(&format!("co.end.{site}.{k}")); } k.into() }
+                    Err(e) => { let (tok, k) = co_err(&e); if record { rep.hit(&format!("co.end.{site}.{k}")); } tok }
                 }
             }
             CoOp::Timeouts => {
@@ -2127,6 +2148,7 @@ fn run_coord_case(m: &mut Model, rep: &mut Report, stream: &str, to: u64, mc: us
         };
         let Some(img) = rc.image() else { rep.disagree(stream, tr(), "unparseable Debug output of WaitForGraph", ""); return false; };
         let mo = m.ask(&line);
+        let mo = if matches!(op, CoOp::Commit(_) | CoOp::Abort(_) | CoOp::CompleteCommit(_) | CoOp::CompleteAbort(_) | CoOp::Force(..)) { co_model_collapsed(&mo) } else { mo };
         // the property oracles below are evaluated even when model and implementation disagree
         let agree = rep.compare(stream, tr, format!("{imp} | {img}").trim_end(), mo.trim_end());
         // oracle (the property, sentence 2): a transaction that just ended holds no lock and is absent from the
